@@ -489,7 +489,7 @@ def correspondence(ctx):
                 dist['dnf_family_cases'] = dist.get('dnf_family_cases', 0) + 1
                 want = M.ptree(ast.parse(L.src(e), mode='eval').body)
                 if o['result'] != ('(XGen PVar [[%s]])' % want if kind == 'filter' else '(XGen %s [[]])' % want):
-                    disagreements.append({'what': 'C03_andor_partial(_cnf) / C03_andor_depth3 / C03_ifexp_partial family: the real decompiler does not return the source', 'input': L.source_text(e, kind), 'impl': o['result']})
+                    disagreements.append({'what': 'C03_andor_partial(_cnf) / C03_andor_depth3(_dual) / C03_ifexp_partial family: the real decompiler does not return the source', 'input': L.source_text(e, kind), 'impl': o['result']})
             if L.natoms(e) > 6:
                 texprs.append('andb (compile_domain %s %s) (tie_noexec %s %s %s [%s] %d %s)' % (
                     M.POSITION[kind], L.coq(e), M.POSITION[kind], L.coq(e), M.coq_code(o['code']), ';'.join(map(str, o['orj'])), o['ce'], o['result']))
@@ -545,7 +545,8 @@ def correspondence(ctx):
 def dnf_family(rng, dual=False, depth3=False):
     """random instance of the families of C03_andor_partial(_cnf): an `or` of `and`s of literals (dual: an `and` of `or`s),
     up to 12 distinct atoms; depth3: the family of C03_andor_depth3 - an `or` of >= 2 alternatives, an alternative is a
-    literal or an `and` of >= 2 conjuncts, a conjunct is a literal or an `or`-clause of >= 2 literals"""
+    literal or an `and` of >= 2 conjuncts, a conjunct is a literal or an `or`-clause of >= 2 literals; depth3 + dual: the
+    family of C03_andor_depth3_dual (and/or exchanged)"""
     nxt = [0]
     def atom():
         a = ('A', nxt[0]); nxt[0] += 1
@@ -577,7 +578,11 @@ def dnf_family(rng, dual=False, depth3=False):
                     w = take(1, rng.choice([1, 2, 2, 3]))
                     cs.append(lit() if w == 1 else ('Or', [lit() for _ in range(w)]))
                 alts.append(('And', cs))
-            if nxt[0] <= 12: return ('Or', alts)
+            if nxt[0] <= 12:
+                if not dual: return ('Or', alts)
+                # the family of C03_andor_depth3_dual: the same shape with `and` and `or` exchanged
+                sw = {'Or': 'And', 'And': 'Or'}
+                return ('And', [(sw[a[0]], [(sw[c[0]], c[1]) if c[0] in sw else c for c in a[1]]) if a[0] in sw else a for a in alts])
     inner, outer = ('Or', 'And') if dual else ('And', 'Or')
     m = rng.randint(1, 5)
     widths = [rng.randint(1, 4) for _ in range(m)]
@@ -611,7 +616,7 @@ def model_cases(ctx):
         out.append(('random', e, allpos))
     seen = set()
     for i in range(ctx.scale(240, 4000)):
-        e = dnf_family(rng, dual=(i % 3 == 1), depth3=(i % 3 == 2))
+        e = dnf_family(rng, dual=(i % 2 == 1), depth3=(i % 4 >= 2))
         if L.key_tuple(e) in seen: continue
         seen.add(L.key_tuple(e))
         out.append(('dnf-family', e, ['filter']))
@@ -654,10 +659,11 @@ LEVEL_TEXT = ('Machine-checked proofs (Coq 8.16.1, closed under the global conte
               'expressions up to the size bound at 7 positions and randomly beyond; the non-boolean grammar is checked by tree equality. (2) On an executable model of CPython 3.12 code generation + '
               'Pony\'s Decompiler, compared with the real bytecode, Decompiler.instructions, or_jumps, conditions_end and the final AST on every run (no disagreement on ~90k cases in the thorough tier): '
               'C03_compile_sound (exec of the compiled stream = eval for EVERY expression of the fragment incl. if-else, all 5 positions; C03_thread_sound: jump threading preserves exec of any stream); '
-              'round trips decompile (compile e) = Some e for four unbounded families: C03_andor_depth3 (every `or` of >= 2 alternatives, each a literal or an `and` of conjuncts, each conjunct a literal '
-              'or an `or`-clause of literals - nesting depth 3, any widths; filter position), C03_andor_partial / _cnf ("or of ands" / "and of ors" of literals; literals are a, not a, a == b, a != b, '
-              'not a == b, a is (not) None) and C03_ifexp_partial ((xa if t1 and ... and tn else xb) in element position); analyze_jumps is characterised for arbitrary streams (or_jumps_classified). '
-              'NOT proved: the dual depth-3 family (`and` outermost), deeper nesting, `not` over a group, positions other than the filter. '
+              'round trips decompile (compile e) = Some e for five unbounded families: C03_andor_depth3 (every `or` of >= 2 alternatives, each a literal or an `and` of conjuncts, each conjunct a literal '
+              'or an `or`-clause of literals) and C03_andor_depth3_dual (the same with `and` and `or` exchanged) - i.e. every and/or nesting of depth <= 3 over literals, any widths, filter position; '
+              'C03_andor_partial / _cnf ("or of ands" / "and of ors" of literals incl. the one-group cases; literals are a, not a, a == b, a != b, not a == b, a is (not) None) and C03_ifexp_partial '
+              '((xa if t1 and ... and tn else xb) in element position); analyze_jumps is characterised for arbitrary streams (or_jumps_classified). '
+              'NOT proved: nesting depth >= 4, `not` over a group, positions other than the filter. '
               'The full and/or/not round trip is REFUTED (6-operand and/or expression of depth 5: a stale targets[pos] limit in process_target; or_jumps is right there), as are most combinations of if-else and the '
               'constant operands: 17 recorded findings with vm_compute witnesses in Findings/C03.v (the == operand class was repaired in /repo 145f804; the model follows the repaired code). '
               '(3) C03_cache_own_tree: decompile()\'s address-keyed tree cache returns every caller the tree of its own code object for all histories and allocator behaviours, '
